@@ -97,6 +97,15 @@ func directWrites(in ssa.Instruction) []hkey {
 	case *ssa.MakeSlice:
 		return []hkey{{kind: 'A', t: in.Type().Underlying().(*types.Slice).Elem()}}
 	case *ssa.Call:
+		if fn, ok := in.Call.Value.(*ssa.Function); ok && fn.String() == "errors.As" && len(in.Call.Args) == 2 {
+			// errors.As(err, target) stores through target
+			if mi, ok := in.Call.Args[1].(*ssa.MakeInterface); ok {
+				if pt, ok := mi.X.Type().Underlying().(*types.Pointer); ok {
+					return []hkey{{kind: 'P', t: pt.Elem()}}
+				}
+			}
+			return []hkey{{kind: '*'}}
+		}
 		if bi, ok := in.Call.Value.(*ssa.Builtin); ok {
 			switch bi.Name() {
 			case "append", "copy":
